@@ -91,7 +91,7 @@ def harnesses(tier):
         what='E4 (real-model reading of orient3d_adaptive): whenever the floating-point filter answers by itself instead of returning orient3d_exact of the same four points, the exact determinant of the difference vectors lies on the answered side by at least 7e-16 x permanent (> the forward error bound gamma_5 = 5.6e-16 of any cofactor evaluation of a 3x3 determinant with exact entries, < Shewchuk\'s 7.77e-16): the bound covers every term of the determinant it guards, and the fall-back is the exact predicate on the same arguments in the same order',
         bound='12 coordinates symbolic reals in [1,2); loop-free; exact real arithmetic for the filter (its rounding enters through the stated forward error lemma, not through the solver); big integers as in E1'))
     H[-1].abs_uf = True
-    H.append(BHarness('E4_insphere_fallback', 'c17_eg.cpp', 'h_e4_insphere_fallback', defs=['ORIENT_SIGN=1', 'INSPHERE_SIGN=1'], pre_inc=inc, stubs=STUBS, post=post278, timeout=1500, noinline=True, native_replay=False, real_model=True, perturb=False,
+    H.append(BHarness('E4_insphere_fallback', 'c17_eg.cpp', 'h_e4_insphere_fallback', defs=['ORIENT_SIGN=1', 'INSPHERE_SIGN=1'], pre_inc=inc, stubs=STUBS, post=post278, timeout=1500, noinline=True, native_replay=False, real_model=True, perturb=False, tiers=('thorough',),
         what='E4\' (real-model reading of insphere_adaptive): the result is insphere_exact of the same five points in the same order, or the filter\'s own answer, which then has the sign of the exact real in-sphere determinant of the differences (degree-5 polynomial identity with the reference written in the harness)',
         bound='15 coordinates symbolic reals (points written as e + difference); loop-free; exact real arithmetic for the filter; big integers as in E1'))
     H[-1].abs_uf = True
